@@ -3,7 +3,7 @@ CONSTANTS
   NB = 5
   REQQ = 0
   DEFOUT = 3
-  MAXOUT = 2
+  MAXOUT = 50
   FAST = TRUE
   STRICT = TRUE
   REQUEUE = FALSE
